@@ -619,6 +619,22 @@ def directed(prop):
         out.append(dict(tests=tests, retries=1, delay_ms=1500, backoff="fixed", failfast="ff", threads=2, filter=None,
                         run_ignored="default", sigint_at=None, priorities=None, groups=None,
                         retry_only="t01_b"))
+        # a cancellation that arrives while a unit is waiting out its retry delay: no further attempt,
+        # and certainly none sooner than the configured delay
+        tests = [dict(bin="alpha::t1", name="t00_a", ignored=False, attempts=[{"sleep": 0.05, "exit": 1}],
+                      expect=["fail"], mode="fail"),
+                 dict(bin="beta::t1", name="t01_b", ignored=False, attempts=[{"sleep": 0.5, "exit": 1}],
+                      expect=["fail"], mode="fail")]
+        out.append(dict(tests=tests, retries=1, delay_ms=1500, backoff="fixed", failfast="ff", threads=2, filter=None,
+                        run_ignored="default", sigint_at=None, priorities=None, groups=None,
+                        retry_only="t00_a"))
+        tests = [dict(bin="alpha::t1", name="t00_a", ignored=False, attempts=[{"sleep": 0.05, "exit": 1}],
+                      expect=["fail"], mode="fail"),
+                 dict(bin="beta::t1", name="t01_b", ignored=False, attempts=[{"sleep": 2.0, "exit": 0, "on_term": "die"}],
+                      expect=["pass"], mode="pass")]
+        out.append(dict(tests=tests, retries=1, delay_ms=1500, backoff="fixed", failfast="noff", threads=2, filter=None,
+                        run_ignored="default", sigint_at=0.6, priorities=None, groups=None,
+                        retry_only="t00_a"))
     return out
 
 
